@@ -323,7 +323,8 @@ def check(repo: Repo, rep: Report) -> None:
             rep.ob("Y3-generate", act, f"{name}: next step scheduled after the computed delay", ok, "the next step is not scheduled with the delay computed for the accepted state")
     # timer counting / delegations
     ta = repo.fn(O + "timer.py", "observable_timer_duetime_and_period.subscribe.action")
-    cnts = names_augmented(ta, ast.Add)
+    from ..rules import names_stepped_by_one
+    cnts = names_stepped_by_one(ta)
     if len(cnts) != 1:
         cnts = ["?counter"]
     em = [s for s in sites(ta) if isinstance(s.node, ast.Call) and dotted(s.node.func) == "observer.on_next" and cell_name(s.node.args[0]) == cnts[0]]
